@@ -1779,6 +1779,15 @@ func c09(args []string) int {
 		return 2
 	}
 
+	// ---- sync path (c09sync.go) ------------------------------------------------
+	var syncCov map[string]any
+	if herr == nil {
+		var ok bool
+		if syncCov, ok = c09SyncCheck().RunLayersPart(rep, c09SyncLayers(thorough), c09SyncBudget()); !ok {
+			return 2
+		}
+	}
+
 	// ---- evidence ------------------------------------------------------------
 	exhaustive := true
 	var incomplete []string
@@ -1844,6 +1853,8 @@ func c09(args []string) int {
 		"flip_restricted_for_large_pages": flipRestricted,
 		"in_memory_phase_s":               memS,
 		"page_sizes":                      pageSizes,
+		"sync_path":                       syncCov,
+		"sync_path_rule":                  c09SyncRule,
 	}
 	assumptions := []string{
 		"offset reads: the frame before the start offset is only required to be salt-valid and its stored checksum is trusted (NewWALReaderWithOffset's contract); images whose prefix before the start is invalid per the full decoder are counted (offset_reads_where_prefix_invalid), compared against the seeded reference, and not judged against the full decoder: litestream only issues such a read after having synced that prefix itself",
@@ -1890,6 +1901,9 @@ func c09Replay(path string) int {
 	if err := json.Unmarshal(raw, &v); err != nil {
 		fmt.Fprintln(os.Stderr, "c09 replay:", err)
 		return 2
+	}
+	if bytes.Contains(raw, []byte(`"history"`)) {
+		return c09SyncCheck().Replay(path) // a violation of the sync-path half
 	}
 	d := v.Detail
 	b := &c9Base{Name: d.Base, PageSize: d.PageSize, BE: d.BigEndian}
